@@ -160,6 +160,19 @@ func (p *prop) runModule(c core.Case, w *core.Worker, res *core.Result, r *rand.
 			"func Mutual2(n int) error {\n\tif n == 0 {\n\t\treturn &NotFound{}\n\t}\n\treturn Mutual1(n - 1)\n}\n\n" +
 			"func Value(n int) (any, error) {\n\tif n == 1 {\n\t\treturn \"one\", nil\n\t}\n\tif err := Load(n); err != nil {\n\t\treturn nil, err\n\t}\n\treturn n, Check(n)\n}\n"
 		m.MustWrite(filepath.Join(d, "funcs.go"), fsrc)
+		// outdated outputs of generators that are NOT enabled for this package (and of one that no longer exists): they
+		// must be removed whatever else is generated in the same run - other packages do get files of the same names
+		for _, gn := range []string{"state", "proto", "runtimedoc", "deepcopy", "gone"} {
+			enabled := false
+			for _, t := range tagSets[i] {
+				if t == "+gengo:"+gn {
+					enabled = true
+				}
+			}
+			if !enabled {
+				m.MustWrite(filepath.Join(d, "zz_generated."+gn+".go"), "package "+d+"\n\n// outdated output of "+gn+"\n")
+			}
+		}
 		// a documented struct with a same-package struct field: runtimedoc helper + deepcopy dependency
 		m.MustWrite(filepath.Join(d, "doc_types.go"), fmt.Sprintf("package %s\n\n// Doc%d has docs.\ntype Doc%d struct {\n\t// Inner field\n\tInner Shared1\n\t// Name of it\n\tName string\n\tTags []string\n\tM map[string]int\n\tEmb%d\n}\n\n// Emb%d is embedded.\ntype Emb%d struct {\n\t// X marks\n\tX int\n}\n", d, i, i, i, i, i))
 		// fixed collision structure (names chosen under a collision in a package processed earlier must not leak into
